@@ -182,6 +182,7 @@ type mapRow struct {
 // Updates the view index if necessary.
 func (c *Collection) updateView(ctx context.Context, designDoc string, viewName string) (view *rosmarView, err error) {
 	err = c.bucket.inTransaction(func(txn *sql.Tx) error {
+		verifPoint("view.update")
 		// Read the view to ensure we get the current lastCas, mapFn, reduceFn:
 		view, err = c.findView(ctx, txn, designDoc, viewName)
 		if err != nil {
